@@ -90,9 +90,13 @@ def run(tier, seed, report):
             if rng.random() < 0.5:
                 # a list that has been through a removal is laid out like one that never held the pid
                 extra = rng.choice([q for q in pids_pool if q not in pids])
+                if rng.random() < 0.5:
+                    # ... also when the pid taken out is the last line and its bytes are not its characters
+                    extra = rng.choice([q for q in ("\u00e9t\u00e9/2024/donn\u00e9es.csv", "\u65e5\u672c\u8a9e-pid", "\u00e91",
+                                                    "\U0001F600") if q not in pids])
                 script.append(store_object(extra, ("ok", toks[0], "bytesio", 0)))
                 binds[extra] = toks[0]
-                victim = rng.choice([pids[0], pids[1], extra])
+                victim = rng.choice([pids[0], pids[1], extra, extra])
                 script.append(delete_object(victim))
                 del binds[victim]
                 metas = {k: v for k, v in metas.items() if k[0] != victim}
